@@ -680,6 +680,8 @@ def load(qual, loops=None, shims=None, extra_globals=None, int_mode="math"):
             if isinstance(k, str):
                 hits = [i for i, h in enumerate(hdrs) if h == k]
                 if len(hits) != 1:
+                    hits = [i for i, h in enumerate(hdrs) if k in h]      # a distinctive fragment of the header is enough
+                if len(hits) != 1:
                     raise LookupError("%s: loop header %r matches %d loops (headers: %r)" % (qual, k, len(hits), hdrs))
                 resolved[hits[0]] = v
             else:
